@@ -55,4 +55,26 @@ FROZEN = {
                             "_getBucketsIdentity", "_newBucketStorage", "_newBucketCache", "_BucketPairs"]]
            + ["body_identity_" + x for x in ["_Durations", "_Float64s", "_NewAccumulator", "Accumulator_AddUint64", "Accumulator_Value"]],
 }
+# accessors, conversions and constructors the models take for granted (added after a sweep over every body that no
+# property froze: a change to any of them is at least reported, see DESIGN 10.2 "Frozen bodies")
+_EXTRA = {
+    "C03": [T + x for x in ["ValueBuckets_AsValues", "ValueBuckets_AsDurations", "DurationBuckets_AsValues", "DurationBuckets_AsDurations"]],
+    "C20": [T + x for x in ["ValueBuckets_AsValues", "ValueBuckets_AsDurations", "DurationBuckets_AsValues", "DurationBuckets_AsDurations"]],
+    "C04": [T + x for x in ["_NewRootScopeWithDefaultInterval", "scope_Capabilities"]],
+    "C08": [T + x for x in ["_NewRootScope", "_NewRootScopeWithDefaultInterval"]],
+    "C10": [T + x for x in ["timerNoReporterSink_ReportCounter", "timerNoReporterSink_ReportGauge", "timerNoReporterSink_Flush", "timerNoReporterSink_Capabilities"]],
+    "C11": [T + x for x in ["counterSnapshot_Name", "counterSnapshot_Tags", "counterSnapshot_Value", "gaugeSnapshot_Name", "gaugeSnapshot_Tags", "gaugeSnapshot_Value",
+                            "timerSnapshot_Name", "timerSnapshot_Tags", "timerSnapshot_Values", "histogramSnapshot_Name", "histogramSnapshot_Tags",
+                            "histogramSnapshot_Values", "histogramSnapshot_Durations", "_NewTestScope"]],
+    "C13": ["body_m3_" + x for x in ["Configuration_NewReporter", "resourcePool_getProto", "resourcePool_releaseProto", "_NewReporter"]]
+           + ["body_cache_" + x for x in ["_NewTagCache", "_NewStringInterner"]] + ["body_identity_" + x for x in ["_StringStringMap", "Accumulator_AddString"]],
+    "C14": ["body_m3_" + x for x in ["noopMetric_ReportCount", "noopMetric_ReportGauge", "noopMetric_ReportTimer", "noopMetric_ReportSamples"]],
+    "C15": ["body_thriftudp_" + x for x in ["_NewTUDPClientTransport", "_NewTMultiUDPClientTransport", "TUDPTransport_Conn"]],
+    "C17": ["body_prometheus_" + x for x in ["reporter_RegisterCounter", "reporter_RegisterGauge", "reporter_RegisterTimer", "Configuration_NewReporter",
+                                             "_DefaultHistogramBuckets", "_DefaultSummaryObjectives", "reporter_Flush"]],
+}
+for _k, _v in _EXTRA.items():
+    for _x in _v:
+        if _x not in FROZEN[_k]:
+            FROZEN[_k].append(_x)
 PREFIXES = {"C16": ["thriftCompact_", "thriftBinary_", "m3v2_", "calcTransport_"]}
